@@ -231,6 +231,26 @@ func c06Gen(r *vh.Rand, tier string, n int, emit func(any)) {
 	for i := 0; i < n/3; i++ {
 		emit(c06Input{Text: []rune{c06RandomRune(r)}})
 	}
+	// LB25 look-ahead past the marks attached to an opening punctuation / hyphen: every tail of <= 3 runes over ordinary,
+	// South-East-Asian (SA, Mn) and ZWJ marks, a digit and a letter, behind each relevant two-rune head
+	if tier != "search" {
+		tailAlphabet := []rune{0x0301, 0x0E34, 0x200D, '1', 'a'}
+		for _, head := range [][]rune{{'$', '('}, {'$', '-'}, {'%', '('}, {'a', '('}} {
+			var rec func(t []rune)
+			rec = func(t []rune) {
+				if len(t) > 0 {
+					emit(c06Input{Text: append(append([]rune(nil), head...), t...)})
+				}
+				if len(t) == 3 {
+					return
+				}
+				for _, c := range tailAlphabet {
+					rec(append(t, c))
+				}
+			}
+			rec(nil)
+		}
+	}
 	pick := func() rune {
 		switch r.Intn(10) {
 		case 0, 1, 2:
